@@ -106,7 +106,8 @@ class BuildOrder(Harness):
                  "antismash.common.secmet.features.cdscollection:CDSCollection.add_cds",
                  "antismash.common.secmet.features.region.structures:Region.add_cds",
                  "antismash.common.secmet.features.protocluster:Protocluster.add_cds"]
-    bound = ("G = 2 genes, one protocluster (core inside extent), one subregion and one create_regions() call, "
+    bound = ("G = 2 genes (one optionally with a core annotation for the protocluster's product, the other for a different product), "
+             "one protocluster (core inside extent), one subregion and one create_regions() call, "
              "interleavings of the five calls (6 representative orders quick, all 60 thorough); symbolic coordinates; linear record")
     outside = "more genes/areas; candidate clusters in this harness (see C05/C06)"
     task_paths = 300
@@ -121,7 +122,7 @@ class BuildOrder(Harness):
         return [{"order": p} for p in orders]
 
     def vars(self, var):
-        d = {"n": "int"}
+        d = {"n": "int", "ann0": "bool"}
         for nm in ("g0", "g1", "pc", "pe", "sr"):
             d.update(shape_vars(nm, "s"))
         return d
@@ -136,6 +137,12 @@ class BuildOrder(Harness):
         rec = mkrecord(v["n"], False)
         genes = [DummyCDS(location=build("g%d" % i, "s", v), locus_tag="g%d" % i, translation="A") for i in range(2)]
         proto = DummyProtocluster(start=v["pes0"], end=v["pee0"], core_start=v["pcs0"], core_end=v["pce0"])
+        # gene 0 may carry a core annotation for the protocluster's product, gene 1 has one for another product
+        from antismash.common.secmet.qualifiers import GeneFunction
+        if v["ann0"]:
+            genes[0].gene_functions.add(GeneFunction.CORE, "test", "profile hit", product=proto.product)
+        genes[1].gene_functions.add(GeneFunction.CORE, "test", "profile hit", product=proto.product + "_other")
+        genes[1].gene_functions.add(GeneFunction.ADDITIONAL, "test", "profile hit", product=proto.product)
         sub = SubRegion(build("sr", "s", v), tool="test")
         for op in var["order"]:
             if op == "P":
@@ -150,6 +157,7 @@ class BuildOrder(Harness):
         region_genes = [[genes.index(c) for c in r.cds_children] for r in regions]
         gene_region = [(regions.index(g.region) if g.region is not None else -1) for g in genes]
         return {"proto": [genes.index(c) for c in proto.cds_children], "sub": [genes.index(c) for c in sub.cds_children],
+                "defining": sorted(genes.index(c) for c in proto.definition_cdses),
                 "regions": len(regions), "region_genes": region_genes, "gene_region": gene_region}
 
     def post(self, var, v, out):
@@ -162,6 +170,10 @@ class BuildOrder(Harness):
                 g = model_parts("g%d" % i, "s", v)
                 cl.append(("area_lists_exactly_contained_genes", L.Iff(i in out[key], contains_parts(a, g))))
             cl.append(("no_duplicates", len(set(out[key])) == len(out[key])))
+        core = model_parts("pc", "s", v)
+        cl.append(("defining_genes_are_the_annotated_genes_inside_the_core",
+                   L.And(L.Iff(0 in out["defining"], L.And(v["ann0"], contains_parts(core, model_parts("g0", "s", v)))),
+                         1 not in out["defining"])))
         # the region exists iff the subregion was there when create_regions ran; its location is the subregion's
         order = var["order"]
         has_region = order.index("S") < order.index("R")
